@@ -12,3 +12,4 @@ INVARIANT Conservation
 INVARIANT MarginalsAgree
 INVARIANT OrderIndependent
 INVARIANT ExcludedIffSpecialBucket
+INVARIANT ClassAbstractionSound
